@@ -1,77 +1,25 @@
-import Foundation.Lemmas.NonceStep2
+import Foundation.Lemmas.NonceMain
+import Foundation.Gen.Facts
+/-!
+# C02 — nonce replay protection
+
+Property theorems only. `Nonce.setNonce` is the literal transcription of `core/nonce.go:setNonce`
+(with Go's `sort.Search`); `stepSt` is one `checkNonce` of one sender (window + ghost history of
+accepted nonces); `stepMulti` is the batch-level store with one window per sender. All theorems
+hold for an arbitrary TTL and arbitrary (unbounded) histories; `facts_ttl` pins the TTL and the
+digit count that the current source uses.
+-/
 open GoSort
 namespace Nonce
 
-theorem inv_init (ttl : Nat) : Inv ttl [] [] := ⟨List.Pairwise.nil, by simp⟩
+/-- `search_correct`: our transcription of Go's `sort.Search` meets Go's contract — on a predicate
+    that is monotone over `[0,n)` it returns the least index satisfying it, else `n`. -/
+theorem search_correct (n : Nat) (f : Nat → Bool) (hm : Mono n f) :
+    search n f ≤ n ∧ (∀ k, k < search n f → f k = false) ∧
+    (∀ k, search n f ≤ k → k < n → f k = true) :=
+  search_spec n f hm
 
-/-- One call of setNonce decides exactly like the full history, and keeps the invariant. -/
-theorem setNonce_refines {ttl n : Nat} {acc W : List Nat} (h : Inv ttl acc W) :
-    (∀ W', setNonce ttl n W = .ok W' → Accepts ttl acc n ∧ Inv ttl (acc ++ [n]) W') ∧
-    (∀ e, setNonce ttl n W = .error e → ¬ Accepts ttl acc n) := by
-  unfold setNonce
-  by_cases hf : is13 n = true
-  · simp only [hf, Bool.not_true, Bool.false_eq_true, if_false]
-    cases hl : W.getLast? with
-    | none =>
-      have hW : W = [] := by simpa using hl
-      subst hW
-      have hacc := inv_nil_acc h
-      subst hacc
-      simp only
-      refine ⟨?_, (by intro e he; cases he)⟩
-      intro W' hW'
-      cases hW'
-      refine ⟨⟨hf, by simp, by simp⟩, List.pairwise_singleton _ _, ?_⟩
-      intro a; simp; intro ha; omega
-    | some l =>
-      simp only
-      by_cases hgt : n > l
-      · simp only [hgt, if_true]
-        obtain ⟨⟨h1, h2⟩, h3⟩ := step_gt h hl hgt
-        refine ⟨?_, (by intro e he; cases he)⟩
-        intro W' hW'
-        cases hW'
-        exact ⟨⟨hf, h1, h2⟩, h3⟩
-      · simp only [hgt, if_false]
-        have hle : n ≤ l := by omega
-        by_cases hold : l - n > ttl
-        · simp only [hold, if_true]
-          refine ⟨(by intro W' hW'; cases hW'), ?_⟩
-          intro e _ hacc
-          obtain ⟨_, hlacc, _, _⟩ := last_is_max h hl
-          have := hacc.2.2 l hlacc
-          omega
-        · simp only [hold, if_false]
-          obtain ⟨hall, hdup, hins⟩ := step_le h hl hle (by omega)
-          split
-          · rename_i hd
-            refine ⟨(by intro W' hW'; cases hW'), ?_⟩
-            intro e _ hacc
-            exact hacc.2.1 (hdup hd)
-          · rename_i hd
-            refine ⟨?_, (by intro e he; cases he)⟩
-            intro W' hW'
-            cases hW'
-            obtain ⟨hn, hinv⟩ := hins hd
-            exact ⟨⟨hf, hn, hall⟩, hinv⟩
-  · have hf' : is13 n = false := by simpa using hf
-    simp only [hf', Bool.not_false, if_true]
-    refine ⟨(by intro W' hW'; cases hW'), ?_⟩
-    intro e _ hacc
-    rw [hacc.1] at hf'
-    cases hf'
-
-/-- The per-sender machine: window `W`, ghost history `acc`. -/
-def stepSt (ttl : Nat) (s : List Nat × List Nat) (n : Nat) : (List Nat × List Nat) × Bool :=
-  match setNonce ttl n s.1 with
-  | .ok W' => ((W', s.2 ++ [n]), true)
-  | .error _ => (s, false)
-
-def run (ttl : Nat) : List Nat → List Nat × List Nat
-  | [] => ([], [])
-  | ns => ns.foldl (fun s n => (stepSt ttl s n).1) ([], [])
-
-theorem foldl_inv (ttl : Nat) (ns : List Nat) (s : List Nat × List Nat) (h : Inv ttl s.2 s.1) :
+theorem foldl_inv (ttl : Nat) (ns : List Nat) (s : PS) (h : Inv ttl s.2 s.1) :
     Inv ttl (ns.foldl (fun s n => (stepSt ttl s n).1) s).2 (ns.foldl (fun s n => (stepSt ttl s n).1) s).1 := by
   induction ns generalizing s with
   | nil => simpa
@@ -83,38 +31,173 @@ theorem foldl_inv (ttl : Nat) (ns : List Nat) (s : List Nat × List Nat) (h : In
     | ok W' => exact ((setNonce_refines h).1 W' hs).2
     | error e => exact h
 
-/-- Every reachable state satisfies the invariant. -/
-theorem reachable_inv (ttl : Nat) (ns : List Nat) :
-    Inv ttl (ns.foldl (fun s n => (stepSt ttl s n).1) ([], [])).2 (ns.foldl (fun s n => (stepSt ttl s n).1) ([], [])).1 :=
-  foldl_inv ttl ns ([], []) (inv_init ttl)
+/-- `window_inv`: in every reachable state the stored window is strictly increasing and consists
+    exactly of the accepted nonces that are within the TTL of every accepted nonce (i.e. of the
+    maximum): the truncated window forgets nothing that could still be replayed. -/
+theorem window_inv (ttl : Nat) (ns : List Nat) :
+    Sorted (runSt ttl ns).1 ∧
+    ∀ a, a ∈ (runSt ttl ns).1 ↔ a ∈ (runSt ttl ns).2 ∧ ∀ m ∈ (runSt ttl ns).2, m ≤ a + ttl := by
+  have h := foldl_inv ttl ns ([], []) (inv_init ttl)
+  exact ⟨h.sorted, h.mem⟩
 
-/-- C02 core: in every reachable state, acceptance = spec on the full history. -/
-theorem accept_iff (ttl : Nat) (ns : List Nat) (n : Nat) :
-    let s := ns.foldl (fun s n => (stepSt ttl s n).1) ([], [])
-    (stepSt ttl s n).2 = true ↔ Accepts ttl s.2 n := by
-  intro s
-  have h := reachable_inv ttl ns
+/-- every accepted nonce is a 13-digit value (`< 10^13`), so no `uint64` arithmetic on stored
+    values can overflow -/
+theorem accepted_are_13_digit (ttl : Nat) (ns : List Nat) :
+    ∀ a ∈ (runSt ttl ns).2, is13 a = true := by
+  have gen : ∀ (ns : List Nat) (s : PS), (∀ a ∈ s.2, is13 a = true) →
+      ∀ a ∈ (ns.foldl (fun s n => (stepSt ttl s n).1) s).2, is13 a = true := by
+    intro ns
+    induction ns with
+    | nil => intro s h; simpa using h
+    | cons n ns ih =>
+      intro s h
+      simp only [List.foldl_cons]
+      apply ih
+      unfold stepSt
+      cases hs : setNonce ttl n s.1 with
+      | error e => exact h
+      | ok W' =>
+        intro a ha
+        simp only [List.mem_append, List.mem_singleton] at ha
+        rcases ha with ha | rfl
+        · exact h a ha
+        · unfold setNonce at hs
+          by_cases hf : is13 a = true
+          · exact hf
+          · simp [hf] at hs
+  exact gen ns ([], []) (by simp)
+
+/-- `refines` (C02 core): in every reachable state, the truncating window decides exactly like the
+    full history: a nonce is accepted iff it is well-formed, was never accepted before, and is not
+    older than any accepted nonce by more than the TTL. -/
+theorem refines (ttl : Nat) (ns : List Nat) (n : Nat) :
+    (stepSt ttl (runSt ttl ns) n).2 = true ↔ Accepts ttl (runSt ttl ns).2 n := by
+  have h := foldl_inv ttl ns ([], []) (inv_init ttl)
   unfold stepSt
-  cases hs : setNonce ttl n s.1 with
+  cases hs : setNonce ttl n (runSt ttl ns).1 with
   | ok W' => simp; exact ((setNonce_refines h).1 W' hs).1
   | error e => simp; exact (setNonce_refines h).2 e hs
 
-/-- at most once: a nonce already in the accepted history is rejected. -/
-theorem replay_rejected (ttl : Nat) (ns : List Nat) (n : Nat) :
-    let s := ns.foldl (fun s n => (stepSt ttl s n).1) ([], [])
-    n ∈ s.2 → (stepSt ttl s n).2 = false := by
-  intro s hn
-  have := (accept_iff ttl ns n)
-  cases hb : (stepSt ttl s n).2 with
-  | false => rfl
-  | true => exact absurd hn ((this.mp hb).2.1)
+/-- the history of accepted nonces only grows, and records exactly the accepted ones -/
+theorem acc_step (ttl : Nat) (s : PS) (n : Nat) :
+    (stepSt ttl s n).1.2 = if (stepSt ttl s n).2 then s.2 ++ [n] else s.2 := by
+  unfold stepSt
+  cases setNonce ttl n s.1 <;> simp
 
-/-- rejected ⇒ state unchanged -/
-theorem reject_keeps (ttl : Nat) (s : List Nat × List Nat) (n : Nat) :
+theorem acc_monotone (ttl : Nat) (ns ms : List Nat) :
+    ∀ a ∈ (runSt ttl ns).2, a ∈ (runSt ttl (ns ++ ms)).2 := by
+  have gen : ∀ (ms : List Nat) (s : PS) a, a ∈ s.2 → a ∈ (ms.foldl (fun s n => (stepSt ttl s n).1) s).2 := by
+    intro ms
+    induction ms with
+    | nil => intro s a h; simpa using h
+    | cons m ms ih =>
+      intro s a h
+      simp only [List.foldl_cons]
+      apply ih
+      rw [acc_step]
+      split
+      · exact List.mem_append_left _ h
+      · exact h
+  intro a ha
+  unfold runSt
+  rw [List.foldl_append]
+  exact gen ms _ a ha
+
+/-- `at_most_once`: once accepted, a nonce is rejected at every later step, whatever happened in
+    between (all routes share `checkNonce` and the store, so this is route-independent). -/
+theorem at_most_once (ttl : Nat) (ns ms : List Nat) (n : Nat)
+    (hacc : (stepSt ttl (runSt ttl ns) n).2 = true) :
+    (stepSt ttl (runSt ttl (ns ++ [n] ++ ms)) n).2 = false := by
+  have hmem : n ∈ (runSt ttl (ns ++ [n])).2 := by
+    unfold runSt
+    rw [List.foldl_append]
+    simp only [List.foldl_cons, List.foldl_nil]
+    have := acc_step ttl (ns.foldl (fun s n => (stepSt ttl s n).1) ([], [])) n
+    unfold runSt at hacc
+    rw [this, hacc]
+    simp
+  have hmem2 := acc_monotone ttl (ns ++ [n]) ms n hmem
+  cases hb : (stepSt ttl (runSt ttl (ns ++ [n] ++ ms)) n).2 with
+  | false => rfl
+  | true => exact absurd hmem2 (((refines ttl _ n).mp hb).2.1)
+
+/-- `too_old_rejected`: older than some accepted nonce by more than the TTL ⇒ rejected. -/
+theorem too_old_rejected (ttl : Nat) (ns : List Nat) (n m : Nat)
+    (hm : m ∈ (runSt ttl ns).2) (hold : n + ttl < m) :
+    (stepSt ttl (runSt ttl ns) n).2 = false := by
+  cases hb : (stepSt ttl (runSt ttl ns) n).2 with
+  | false => rfl
+  | true =>
+    have := ((refines ttl ns n).mp hb).2.2 m hm
+    omega
+
+/-- the exact edge: a well-formed unused nonce exactly `ttl` older than the maximum is accepted -/
+theorem window_edge_accepted (ttl : Nat) (ns : List Nat) (n : Nat)
+    (hf : is13 n = true) (hnew : n ∉ (runSt ttl ns).2)
+    (hedge : ∀ m ∈ (runSt ttl ns).2, m ≤ n + ttl) :
+    (stepSt ttl (runSt ttl ns) n).2 = true :=
+  (refines ttl ns n).mpr ⟨hf, hnew, hedge⟩
+
+/-- `bad_format_rejected`: anything that is not a 13-digit value is rejected, in every state. -/
+theorem bad_format_rejected (ttl : Nat) (s : PS) (n : Nat) (h : is13 n = false) :
+    (stepSt ttl s n).2 = false ∧ (stepSt ttl s n).1 = s := by
+  unfold stepSt setNonce
+  simp [h]
+
+/-- `fresh_accepted` (completeness): a well-formed nonce above everything accepted so far is accepted. -/
+theorem fresh_accepted (ttl : Nat) (ns : List Nat) (n : Nat)
+    (hf : is13 n = true) (hnew : ∀ m ∈ (runSt ttl ns).2, m < n) :
+    (stepSt ttl (runSt ttl ns) n).2 = true := by
+  apply (refines ttl ns n).mpr
+  refine ⟨hf, ?_, ?_⟩
+  · intro hmem; have := hnew n hmem; omega
+  · intro m hm; have := hnew m hm; omega
+
+/-- `reject_keeps_state`: a rejected nonce leaves window and history untouched. -/
+theorem reject_keeps_state (ttl : Nat) (s : PS) (n : Nat) :
     (stepSt ttl s n).2 = false → (stepSt ttl s n).1 = s := by
   unfold stepSt
   cases setNonce ttl n s.1 <;> simp
 
-#eval (run 50000 [1700000000000, 1700000060000, 1700000010000, 1700000020000, 1700000020000, 1700000110001])
+/-- `sender_independent`: a step for one sender leaves every other sender's window untouched … -/
+theorem sender_independent (ttl : Nat) (st : Store) (s s' : String) (n : Nat) (h : s' ≠ s) :
+    stepMulti ttl st (s, n) s' = st s' := by
+  simp [stepMulti, Foundation.upd_other _ _ _ _ h]
+
+/-- … and what one sender observes is a function of that sender's own nonces only: the
+    multi-sender store projected on `s` is the single-sender machine run on `s`'s sub-history. -/
+theorem per_sender_projection (ttl : Nat) (h : List (String × Nat)) (s : String) :
+    runMulti ttl h s = runSt ttl ((h.filter (fun e => e.1 = s)).map (·.2)) := by
+  have gen : ∀ (h : List (String × Nat)) (st : Store),
+      (h.foldl (stepMulti ttl) st) s =
+      ((h.filter (fun e => e.1 = s)).map (·.2)).foldl (fun x n => (stepSt ttl x n).1) (st s) := by
+    intro h
+    induction h with
+    | nil => intro st; rfl
+    | cons e h ih =>
+      intro st
+      simp only [List.foldl_cons]
+      by_cases he : e.1 = s
+      · rw [ih]; subst he; simp [stepMulti]
+      · have : s ≠ e.1 := fun x => he x.symm
+        rw [ih]; simp [he, stepMulti, Foundation.upd_other _ _ _ _ this]
+  exact gen h (fun _ => ([], []))
+
+/-- per-run obligation on the extracted constants: the validity window is 50 s and nonces have
+    13 digits, the numbers the property statement quotes. -/
+theorem facts_ttl : Foundation.Facts.defaultNonceTTL = 50 ∧ Foundation.Facts.lenTimeInMilliseconds = 13 := by
+  decide
+
+/-! ### non-vacuity -/
+
+/-- a concrete history: accept, accept a new maximum 60 s later (window truncated), reject the now
+    too-old value, reject a duplicate -/
+example : (runSt 50000 [1700000000000, 1700000060000]).1 = [1700000060000] ∧
+    (stepSt 50000 (runSt 50000 [1700000000000, 1700000060000]) 1700000000001).2 = false ∧
+    (stepSt 50000 (runSt 50000 [1700000000000, 1700000060000]) 1700000060000).2 = false ∧
+    (stepSt 50000 (runSt 50000 [1700000000000, 1700000060000]) 1700000010000).2 = true := by
+  decide
+
+example : Accepts 50000 [1700000000000, 1700000060000] 1700000010000 := by decide
 
 end Nonce
